@@ -212,7 +212,7 @@ def near_misses(draw, p, count=4):
             q = p[:i] + bytes([p[i] ^ 0x80 or 0x80]) + p[i + 1 :]
         elif k == "blank":
             i = draw(st.integers(0, n))
-            bl = draw(st.sampled_from([" ", "\t", "  "]))
+            bl = draw(st.sampled_from([" ", "\t", "  ", "\n", "\r", "\x0b", "\x0c", " \t"]))
             q = p[:i] + (bl if is_text else bl.encode()) + p[i:]
         elif k == "swap" and n >= 2:
             i = draw(st.integers(0, n - 2))
